@@ -22,6 +22,14 @@ Definition wf_stepb (s : sys) (o : op) : bool :=
                   | Some e => forallb (fun a => negb (N.eqb (e_hash a) h) || entry_eqb_full a e) (s_univ s)
                   end
       end
+  | OAppendFail r payload pc h =>
+      match nth_error (s_logs s) r with
+      | None => true
+      | Some l => match append_entry l payload pc h with
+                  | None => true
+                  | Some e => forallb (fun a => negb (N.eqb (e_hash a) h) || entry_eqb_full a e) (s_univ s)
+                  end
+      end
   | OJoin _ _ size => size <? 0
   | _ => true
   end.
